@@ -322,15 +322,18 @@ def iopPBA (h : Heap) (p q : PBA) (op : Op) : Except PErr Heap := do
 
 def setLast (l : List Byte) (b : Byte) : List Byte := l.set (l.length - 1) b
 
-def copy (h : Heap) (p : PBA) : Except PErr (Heap × PBA) := do
-  let f ← p.fml h true
-  let nb := p.data h
+/-- `new_buffer[0] = packbits(first)[0]` and `new_buffer[-1] = packbits(last)[0]` (when present) -/
+def maskedBuffer (f : FML) (nb : List Byte) : List Byte :=
   let nb := match f.first.arr with
     | some a => nb.set 0 (pack a)
     | none => nb
-  let nb := match f.last.arr with
-    | some a => setLast nb (pack a)
-    | none => nb
+  match f.last.arr with
+  | some a => setLast nb (pack a)
+  | none => nb
+
+def copy (h : Heap) (p : PBA) : Except PErr (Heap × PBA) := do
+  let f ← p.fml h true
+  let nb := maskedBuffer f (p.data h)           -- new_buffer = self._data.copy(); …
   let q ← initData h.size nb.length true (some p.start) (some p.stop)
   pure (h ++ nb.toArray, q)
 
@@ -464,15 +467,20 @@ def bitCount (x : Byte) : Byte :=
 
 def countTrue (l : List Bool) : Nat := l.count true
 
-/-- `self.sum()` -/
-def sum (h : Heap) (p : PBA) : Except PErr Nat := do
-  let f ← p.fml h true
+/-- `np.sum(first) + np.sum(last) + np.sum(self._bit_count(mid_data))` (lines 160-165);
+    `off` = heap position of `self._data[0]` -/
+def sumParts (h : Heap) (off : Nat) (f : FML) : Nat :=
   let s1 := match f.first.arr with | some a => countTrue a | none => 0
   let s2 := match f.last.arr with | some a => countTrue a | none => 0
   let s3 := match f.mid with
-    | some (a, b) => (((List.range (b - a)).map fun i => (bitCount (rdB h (p.off + a + i))).toNat)).sum
+    | some (a, b) => (((List.range (b - a)).map fun i => (bitCount (rdB h (off + a + i))).toNat)).sum
     | none => 0
-  pure (s1 + s2 + s3)
+  s1 + s2 + s3
+
+/-- `self.sum()` -/
+def sum (h : Heap) (p : PBA) : Except PErr Nat := do
+  let f ← p.fml h true
+  pure (sumParts h p.off f)
 
 def prodL (l : List Nat) : Nat := l.foldl (· * ·) 1
 
